@@ -9,7 +9,10 @@ Sources of cases:
       (scan_chain) must equal the chain computed here in Python;
   (b) frame-pointer chains, scan-findable stacks and CFI-described stacks built in Python
       (props/c05.py::build_chain) for every CPU x OS, depth 1..64, also at the top of the address space;
-  (c) stacks mixing CFI and scan per frame."""
+  (c) stacks mixing CFI and scan per frame (Python-built, and laid out by the Coq builder C04.Model.mix_layout, the
+      object of theorem c04_recovers_chain: words, chain and precondition from the model);
+  (d)-(f) x86 STACK WIN stacks: frame data / FPO / STACK CFI mixed, direct recursion, and scan / STACK WIN / CFI mixes
+      with grand-callee parameter sizes."""
 import subprocess
 
 import vlib
@@ -282,32 +285,41 @@ class C04(PropBase):
     impl_timeout = 300
     model_timeout = 3000     # the Coq-built scan layouts sit in the first shards; on a heavily loaded machine 900 s was not enough for the thorough tier
     rule = ("cases = well-formed synthetic threads: (a) scan-findable stacks laid out by the Coq builder scan_layout, depth 1..64, gaps up "
-            "to the window edge (159 / 39 words; MIPS64 127); (b) frame-pointer chains, scan-findable and CFI-described stacks for every CPU "
+            "to the window edge (159 / 39 words; MIPS64 127); (a') stacks with the technique chosen per frame (CFI / scan) laid out by the Coq "
+            "builder mix_layout (words, expected chain mix_chain and the boolean precondition mix_wf_layout all from the extracted model; two CFI "
+            "modules with different frame sizes, look-alike return addresses in every CFI frame and in the skipped mips32 argument words); "
+            "(b) frame-pointer chains, scan-findable and CFI-described stacks for every CPU "
             "(x86, amd64, arm, arm64, arm64_old, mips32, mips64) x OS (other, windows, ios), depth 1..64, 1-3 modules, also at the top of the "
             "address space; (c) stacks mixing CFI and scan per frame; (d) x86 stacks whose functions are described by STACK WIN frame-data / "
             "FPO records and STACK CFI mixed per frame, depth 3..40; (e) x86 STACK WIN stacks (FPO type 0 with and without "
             "allocates_base_pointer, frame data type 4) with direct recursion from a single call site, depth 3..16 activations, where functions "
-            "(in two thirds of the stacks the recursing one) have no FUNC/PUBLIC record; non-trivial = at least 2 frames; distinct = distinct case lines")
+            "(in two thirds of the stacks the recursing one) have no FUNC/PUBLIC record; (f) x86 stacks mixing per frame: scanned frames (FUNC with a "
+            "parameter size, no unwind data, saved-%ebp slot), STACK WIN frame data, FPO, STACK CFI, depth 2..40, the frame above a scanned frame "
+            "holding the arguments of the scanned frame's callee; non-trivial = at least 2 frames; distinct = distinct case lines")
     trusted_base = [
         "Coq 8.16.1 kernel (vm_compute only in the non-vacuity Examples)",
         "walker model C05/Model.v (hand-written, correspondence-checked) and the stack builders of C04/Model.v",
-        "the CFI theorem is about the abstract *correct* oracle cfi_correct; evaluation of real STACK CFI text is C06's",
+        "the CFI / mixed theorems are about the abstract *correct* oracles cfi_correct / mix_cfi_correct; evaluation of real STACK CFI text is C06's",
         "extraction: ExtrOcamlBasic only; ocaml/zconv.ml + ocaml/c04/main.ml; harness/src/bin/c05.rs",
     ]
     manifest = {
-        "text": "PARTIAL. Theorems (Coq, unbounded depth by induction on the list of frame specs, all profiles, any module lookup): "
-                "c04_recovers_chain_partial_scan — for x86, amd64, arm, arm64(+old), mips64 every scan-findable stack satisfying the boolean "
-                "precondition scan_wf_layout (gaps inside the 160/40-word windows, return addresses acceptable, padding not) is walked to exactly "
-                "the generated chain (return address, instruction = ra - adj, sp, trust scan, validity) and the walk stops at the generated end; "
-                "c04_recovers_chain_partial_cfi — same for all six architectures when every frame is described by CFI, through the abstract "
-                "correct oracle (and any oracle agreeing with it); c04_recovers_chain_partial_fp — frame-pointer chains for x86, amd64, arm/iOS, arm64; "
-                "scan incl. mips32; c04_constants pins the documented windows / slack. One technique per walk. "
-                "Mixed techniques and real STACK CFI text are covered by the correspondence run only: depth 1..64 stacks for every CPU x OS "
-                "through the real walk_stack and the extracted model, with an independent oracle comparing the frames with the generated chain.",
-        "note": "Partial: one technique per walk in the theorems (scan incl. mips32, CFI through the correct oracle, frame-pointer chains); no "
-                "theorem here for technique-per-frame mixes. STACK WIN: all-FPO stacks of unbounded depth are proved at C07 (c07_fpo_recovers_chain, on "
-                "C07's model of walk_stack's loop with the translated from_ctx_and_args derivation); frame-data programs, allocates_base_pointer = 1 and "
-                "mixes with STACK CFI are covered by the run (d, e) through the whole symbol-file model (C09 grammar + C07 evaluation inside C05's walker). "
+        "text": "PARTIAL. Theorems (Coq, unbounded depth by induction on the list of frame specs, both profiles, any module lookup): "
+                "c04_recovers_chain — technique chosen PER FRAME between CFI (abstract correct symbol-file oracle, or any oracle agreeing with it on the "
+                "frames of the walk) and scanning, for x86, amd64, arm (not iOS), arm64(+old), mips32, mips64 (c04_mix_archs): every stack satisfying the "
+                "boolean precondition mix_wf_layout (scan frames: return address inside the 160/40-word window of its callee after the skipped mips32 "
+                "argument words, acceptable to instruction_seems_valid, padding not; CFI frames: arbitrary words, callee's lookup address inside a "
+                "module) is walked to exactly the generated chain — one frame per call with return address, instruction = ra - adj, sp, trust cfi/scan, "
+                "validity set (callee-saved forwarded through CFI frames, {ip, sp} after a scan), general registers carried through CFI frames — and the "
+                "walk stops at the generated end; c04_recovers_chain_partial_scan / _cfi / _cfi_any / _fp — one technique per walk (scan incl. mips32, "
+                "CFI, frame-pointer chains for x86, amd64 with/without the Windows slack scan, arm/iOS, arm64); c04_constants pins the documented "
+                "windows / slack. Frame-pointer frames inside a mix, STACK WIN and real STACK CFI text are covered by the correspondence run only: "
+                "depth 1..64 stacks for every CPU x OS through the real walk_stack and the extracted model (incl. stacks laid out by the Coq builders "
+                "of the scan and mixed theorems), with an independent oracle comparing the frames with the generated chain.",
+        "note": "Partial: the mixed theorem covers CFI and scan frames (not frame-pointer frames inside a mix); CFI is the abstract correct oracle in "
+                "the theorems, the evaluation of rule text is C06's / C07's model inside C05's walker in the run. STACK WIN: all-FPO stacks of unbounded "
+                "depth are proved at C07 (c07_fpo_recovers_chain, on C07's model of walk_stack's loop with the translated from_ctx_and_args derivation); "
+                "frame-data programs, allocates_base_pointer = 1, mixes with STACK CFI and with scanned frames are covered by the run (d, e, f) through "
+                "the whole symbol-file model (C09 grammar + C07 evaluation inside C05's walker). "
                 "Function names not observed (C11). Trusted: Coq kernel, hand-written walker model (correspondence-checked), extraction + glue.",
     }
     assumptions = ["stack memory little-endian; symbol provider = breakpad Symbolizer over string symbol files",
@@ -384,15 +396,79 @@ class C04(PropBase):
                 self.chain_diff.append((cases[-1], chain[:200], mine[:200]))
         return cases
 
+    def model_exe(self):
+        d = vlib.ALT_DIR if getattr(vlib, "ALT", None) else vlib.CACHE
+        exe = vlib.os.path.join(d, "ocaml", "c04", "model")
+        return exe if vlib.os.path.exists(exe) else vlib.os.path.join(vlib.CACHE, "ocaml", "c04", "model")
+
+    def coq_mixed_layouts(self, rng, n):
+        """technique-per-frame (CFI / scan) stacks laid out by the extracted Coq builder mix_layout, the object of theorem
+        c04_recovers_chain: stack words, expected chain (mix_chain) and the boolean precondition (mix_wf_layout, with the
+        case's own module lookup and instruction_seems_valid) all come from the model; the chain is also computed here."""
+        reqs, exps = [], []
+        for _ in range(n):
+            arch = rng.choice([0, 1, 2, 3, 4, 4, 5, 6])
+            A = ARCH[arch]
+            pw, bits, adj = A["pw"], A["bits"], A["adj"]
+            os_ = rng.choice([0, 1, 2])
+            if arch == 2 and os_ == 2:
+                os_ = 0     # ARM on iOS is outside mix_arch (a valid fp of 0 ends the walk by design)
+            win_ctx, win, skip = WINDOWS[arch]
+            depth = rng.choice([1, 2, 3, 5, 8, 13, 21, 34, 64])
+            k = 2 if arch in (3, 6) else 1
+            sizes = [rng.range(1, 6) * k, rng.range(1, 9) * k]       # words per CFI frame in the two CFI modules
+            cm = [0x40000000, 0x40020000]
+            m1 = 0x50000000
+            mods = [(cm[0], 0x10000, sym(0, 0x10000, 0, 0x10000, sizes[0] * pw, 0, pw, None)), (m1, 0x10000, "-"),
+                    (cm[1], 0x10000, sym(0, 0x10000, 0, 0x10000, sizes[1] * pw, 0, pw, None))]
+            base = 0x80000000 if bits == 32 else 0x00007ffd00000000
+            techs = [rng.choice([0, 1, 2]) for _ in range(depth + 1)]        # 0, 2: CFI module 0 / 1; 1: scan
+            modof = lambda t: m1 if t == 1 else cm[t // 2]
+            ip0 = modof(techs[0]) + 0x50
+            lookalike = lambda: rng.choice([m1 + 0x300 + 4 * rng.below(64), cm[0] + 0x300 + 4 * rng.below(64), cm[1] + 0x300, 0, base + 8 * rng.below(64)])
+            specs, exp, off = [], [], 0
+            for i in range(depth):
+                t = techs[i]
+                ra = modof(techs[i + 1]) + 0x100 + 0x10 * (i % 100)
+                if t != 1:
+                    fill = [lookalike() for _ in range(sizes[t // 2] - 1)]
+                else:
+                    lo = skip if i > 0 else 0
+                    gap = rng.choice([0, 1, 5, (win_ctx if i == 0 else win) - 1])
+                    fill = [lookalike() for _ in range(lo)] + [0] * gap
+                specs.append("%d %d %s%d" % (0 if t != 1 else 1, len(fill), "".join("%d " % w for w in fill), ra))
+                off += len(fill) + 1
+                exp.append(dict(instr=ra - adj, resume=ra, sp=base + pw * off, trust="scan" if t == 1 else "cfi"))
+            reqs.append("M %d %d %d %d %d %s %d %s" % (arch, os_, base, ip0, depth, " ".join(specs), len(mods),
+                                                      " ".join("%d %d %s" % m for m in mods)))
+            exps.append(exp)
+        p = subprocess.run([self.model_exe()], input="\n".join(reqs) + "\n", stdout=subprocess.PIPE, text=True, timeout=900)
+        outs = p.stdout.split("\n")[:len(reqs)]
+        if len(outs) != len(reqs) or p.returncode != 0:
+            raise vlib.CheckFailure("mixed layout requests to the C04 model failed")
+        cases = []
+        for out, exp in zip(outs, exps):
+            case, chain, wf = out.split(" ## ")
+            if wf != "1":
+                self.not_wf = getattr(self, "not_wf", 0) + 1
+            mine = "|".join("%d,%d,%d,%s" % (e["instr"], e["resume"], e["sp"], e["trust"]) for e in exp)
+            cases.append(case + " " + fmt_exp(exp))
+            if chain != mine:
+                self.chain_diff.append((cases[-1], chain[:200], mine[:200]))
+        return cases
+
     def gen_cases(self, tier, seed):
         rng = Rng(seed)
         self.chain_diff = []
         cases = []
         dist = {"coq_scan_layouts": 0, "python_chains": {}, "mixed": 0}
-        n_a = 1500 if tier == "quick" else 15000
+        n_a = 1000 if tier == "quick" else 5000
         cases += self.coq_layouts(rng, n_a)
         dist["coq_scan_layouts"] = n_a
-        n_b = 4000 if tier == "quick" else 40000
+        n_m = 500 if tier == "quick" else 2500
+        cases += self.coq_mixed_layouts(rng, n_m)
+        dist["coq_mixed_cfi_scan_layouts"] = n_m
+        n_b = 4000 if tier == "quick" else 20000
         for _ in range(n_b):
             arch = rng.choice([0, 1, 2, 3, 4, 5, 6])
             os_ = rng.choice([0, 1, 2])
@@ -403,23 +479,23 @@ class C04(PropBase):
             cases.append(case + " " + fmt_exp(exp))
             key = "%s/%s" % (ARCH[arch]["name"], tech)
             dist["python_chains"][key] = dist["python_chains"].get(key, 0) + 1
-        n_c = 1500 if tier == "quick" else 15000
+        n_c = 1500 if tier == "quick" else 8000
         for _ in range(n_c):
             arch = rng.choice([0, 1, 2, 3, 4, 4, 4, 5, 6])
             case, exp = mixed_stack(rng, arch, rng.choice([0, 1, 2]), rng.choice([1, 2, 3, 5, 8, 13, 21, 34, 64]))
             cases.append(case + " " + fmt_exp(exp))
             dist["mixed"] += 1
-        n_d = 1200 if tier == "quick" else 12000
+        n_d = 1200 if tier == "quick" else 6000
         for _ in range(n_d):
             case, exp = win_stack(rng, rng.choice([3, 4, 4, 5, 6, 8, 12, 20, 40]))
             cases.append(case + " " + fmt_exp(exp))
         dist["stack_win_x86"] = n_d
-        n_e = 600 if tier == "quick" else 6000
+        n_e = 600 if tier == "quick" else 3000
         for _ in range(n_e):
             case, exp = win_recursion_stack(rng, rng.choice([3, 3, 4, 5, 8, 16]))
             cases.append(case + " " + fmt_exp(exp))
         dist["stack_win_x86_recursion"] = n_e
-        n_f = 700 if tier == "quick" else 7000
+        n_f = 700 if tier == "quick" else 3500
         for _ in range(n_f):
             case, exp = win_scan_mix_stack(rng, rng.choice([2, 3, 3, 4, 5, 6, 8, 12, 20, 40]))
             cases.append(case + " " + fmt_exp(exp))
